@@ -256,6 +256,28 @@ META = {
         note=NOTE_COMMON + "Goroutine census by runtime.Stack.",
         technique="Lean 4 theorems on the stream model + e2e exploration with Close / faults at every transport step",
     ),
+    "C01": dict(
+        text="Proof: the pure data path is proved in full: for every list of packets with increasing ids, every split size, every "
+             "payload size and maximum, what the reader reassembles from the concatenated frame encodings is exactly the list sent "
+             "(delivery_pure), for every chunking of the byte stream (delivery_any_chunking), every cut of the stream yields a prefix "
+             "(delivery_prefix), batches concatenate (delivery_two_writers_order). The concurrent part (write lock across the frames of "
+             "a message, packet-buffer hand-over, flush after send) is covered by the atomic-step stream model tied by trace validation "
+             "(stream suite) and by the C07 invariants; the two-endpoint composition is explored by the e2e delivery family with tagged "
+             "payloads. Partial: the composition is not one theorem.",
+        design_ref="DESIGN.md §6 C01",
+        note=NOTE_COMMON + "Two-endpoint composition explored, not proved.",
+        technique="Lean 4 theorems (induction over frames and packets, refinement through the reader reference) + trace validation + e2e exploration",
+    ),
+    "C05": dict(
+        text="Proof, partial: proved on the reader model: a packet is surfaced only on its done frame and is completed by the bytes "
+             "read (no_partial_packet_surfaced), for every cut of a valid stream and every final error the packets returned are a "
+             "prefix of what was sent and the error is the transport's (delivered_is_prefix_despite_fault), bytes appended after a "
+             "packet boundary can never change what was already returned (garbage_*). Termination on a read error, failing of pending "
+             "and later calls, Closed() and absence of panics are explored by the e2e fault family (fault position enumerated).",
+        design_ref="DESIGN.md §6 C05",
+        note=NOTE_COMMON + "Transport contract assumed: a broken transport fails all its pending and later I/O.",
+        technique="Lean 4 theorems on the reader model + e2e fault enumeration under a director",
+    ),
 }
 
 _NYB = "check not built yet in this round (planned: Lean model + correspondence, see DESIGN.md §6)"
